@@ -173,7 +173,7 @@ def collect_metadata(path, measure_set):
 
     if "Range" in measure_set.types:
         meta["RANGE_UNITS"] = "km"
-    if "Azimut" in measure_set.types:
+    if "Azimut" in measure_set.types or "Elevation" in measure_set.types:
         meta["ANGLE_TYPE"] = "AZEL"
     return meta
 
